@@ -137,10 +137,10 @@ def nested_invocations(events, n):
 class UnitInfo:
     """static facts about a grammar unit used by the comparator"""
 
-    def __init__(self, g: Grammar):
+    def __init__(self, g: Grammar, step_cap=20000):
         self.g = g
         self.types = check_types(g)
-        self.model = Model(g, self.types)
+        self.model = Model(g, self.types, step_cap=step_cap)
         self.has_memo = any(r.kind == "rule" and r.has("memoize") for r in g.rules)
         self.has_lr = any(r.kind == "rule" and r.has("leftrec") for r in g.rules)
         self.lr_scc = set()
